@@ -74,7 +74,7 @@ func causeTag(owner store.Obj) string {
 
 func (m *MonC04) OnReq(w *World, r *Req) {
 	p := r.Pass
-	if p == nil || !r.IsWrite() || r.DryRun || !r.Applied || r.Err != nil {
+	if p == nil || !r.IsWrite() || r.DryRun || !r.Succeeded() {
 		return
 	}
 	if !isObjectSetKind(p.Ctrl) {
